@@ -42,6 +42,11 @@ def job(item):
         if kind == 'seed':
             prop = json.load(open(path / 'meta.json'))['property']
             res = check(d, prop)
+            if '--record' in sys.argv and res.startswith('1 '):
+                import ast as _ast
+                m = json.load(open(path / 'meta.json'))
+                m['detected_by'] = {'check': prop, 'exit': 1, 'rules': _ast.literal_eval(res[2:])}
+                json.dump(m, open(path / 'meta.json', 'w'), indent=1)
             return (kind, path.name, res if res.startswith('1 ') else 'MISSED: ' + res)
         bad = {}
         for p in claimed:
